@@ -35,11 +35,13 @@ def run(ctx: Ctx):
     blank_name = nonext_name = None
     for n in own_nodes(fwd.node):
         if isinstance(n, ast.Assign) and len(n.targets) == 1 and isinstance(n.value, ast.Subscript):
-            s = u(n.value)
-            if s.endswith("[..., V]"):
-                blank_name = u(n.targets[0])
-            if s.endswith("[..., :V]"):
-                nonext_name = u(n.targets[0])
+            sl_ = n.value.slice
+            items = list(sl_.elts) if isinstance(sl_, ast.Tuple) else [sl_]
+            if len(items) == 2 and isinstance(items[0], ast.Constant) and items[0].value is Ellipsis:
+                if isinstance(items[1], ast.Name):
+                    blank_name = u(n.targets[0])  # probs[..., V]: the last (blank) column
+                elif isinstance(items[1], ast.Slice) and items[1].lower is None and isinstance(items[1].upper, ast.Name):
+                    nonext_name = u(n.targets[0])  # probs[..., :V]: the label columns
     ok_pt = False
     if isinstance(pt, ast.Tuple) and len(pt.elts) == 3:
         d1 = rd.derives(pt.elts[1])
@@ -108,7 +110,11 @@ def run(ctx: Ctx):
     if kdef:
         other = [a for a in kdef[0].value.args if u(a) != "width"][0]
         nz = Normalizer()
-        okk = not padd(nz.poly(other), nz.poly(ast.parse("Kp * V + Kp", mode="eval").body), -1)
+        shp = [n for n in own_nodes(adv.node) if isinstance(n, ast.Assign) and isinstance(n.targets[0], ast.Tuple)
+               and len(n.targets[0].elts) == 3 and u(n.value).endswith(".shape") and u(n.value).split(".")[0] == pt_un.get(0)]
+        if shp:
+            kp_, v_ = u(shp[0].targets[0].elts[1]), u(shp[0].targets[0].elts[2])
+            okk = not padd(nz.poly(other), nz.poly(ast.parse(f"{kp_} * {v_} + {kp_}", mode="eval").body), -1)
     col.ob("G12", "S1", f"{where_a}::K=min(width, old_width*(V+1))", okk,
            f"the number of kept candidates is `{u(kdef[0].value) if kdef else None}`; there are old_width * V extension "
            f"candidates plus old_width non-extension candidates", rel, kdef[0].lineno if kdef else adv.line)
